@@ -128,10 +128,30 @@ def run(ctx, rep):
     ca = A.find_calls(fa.node, "self._handle_call")
     ok = len(ga) == 1 and len(ca) == 1 and [A.src(x) for x in ga[0].args] == ap[1:3] and \
         [A.src(x) for x in ca[0].args][1:] == ap[3:5]
+    # decided by evaluation when possible: one policy-checked lookup of (obj, name); what it returns is called exactly once with
+    # the operands unchanged; its result is the handler's result
+    try:
+        from .. import miniinterp as MIc
+        looked, called = [], []
+
+        def target(*a, **k):
+            called.append((a, k))
+            return "RESULT"
+        cm_ = {n_: m_.node for n_, m_ in ctx.cls(K.CONN).methods.items() if n_ != "_handle_getattr"}
+        ex_ = {"__calls__": {"self._handle_getattr": lambda o, n: (looked.append((o, n)), target)[1]}, "__methods__": cm_, "__max_iter__": 100}
+        ex_["__global_lookup__"] = K.module_function_lookup(ctx, fa.module, ex_)
+        got_ = MIc.call_method(fa.node, {}, ["OBJ", "meth", (1, 2), (("k", 3),)], ex_)
+        ok = looked == [("OBJ", "meth")] and called == [((1, 2), {"k": 3})] and got_ == "RESULT"
+        looked2, called2 = [], []
+        ex_["__calls__"] = {"self._handle_getattr": lambda o, n: (looked2.append((o, n)), (lambda *a, **k: (called2.append((a, k)), None)[1]))[1]}
+        got2_ = MIc.call_method(fa.node, {}, ["OBJ", "meth", ()], ex_)
+        ok = ok and looked2 == [("OBJ", "meth")] and called2 == [((), {})] and got2_ is None
+    except (AnalysisError, MIc.Raised):
+        pass
     rep.ob("R01.2", "_handle_callattr: resolves the name through the policy and delegates args/kwargs unchanged", ok,
            "self._handle_getattr(obj, name) -> self._handle_call(<result>, args, kwargs)" if ok else
            "_handle_callattr no longer goes through _handle_getattr(obj, name) / _handle_call(.., args, kwargs)", fa.loc)
-    if ok:
+    if ok and len(ga) == 1 and len(ca) == 1:     # (the evaluation above already decides this; kept for the structural form)
         st = A.enclosing(ga[0], ast.stmt)
         tgt = st.targets[0].id if isinstance(st, ast.Assign) and isinstance(st.targets[0], ast.Name) else None
         ok2 = (tgt is not None and A.src(ca[0].args[0]) == tgt) or ca[0].args[0] is ga[0]
@@ -238,6 +258,9 @@ def run(ctx, rep):
         def __init__(self, outcome):
             self.outcome = outcome
 
+        def set_expiry(self, t):
+            pass
+
         @property
         def value(self):
             if isinstance(self.outcome, MI.Raised):
@@ -251,12 +274,14 @@ def run(ctx, rep):
                                ("an EOFError", MI.Raised("EOFError", "ORIGINAL"))):
             seen = []
 
-            def areq(*a, outcome=outcome, seen=seen, **k):
-                seen.append((a, k))
-                return _Reply(outcome)
+            def issue(h, a=(), cb=None, seen=seen):
+                seen.append(((h,) + tuple(a), {}))
+            conn_meths = {n_: m_.node for n_, m_ in ctx.cls(K.CONN).methods.items() if n_ != "_async_request"}
+            extra_sr = {"__calls__": {"AsyncResult": lambda c, outcome=outcome: _Reply(outcome), "self._async_request": issue},
+                        "__methods__": conn_meths, "__max_iter__": 100}
+            extra_sr["__global_lookup__"] = K.module_function_lookup(ctx, fsr.module, extra_sr)
             try:
-                got = MI.call_method(fsr.node, {"_config": {"sync_request_timeout": 30}}, ["HANDLER", "a1", "a2"],
-                                     {"__calls__": {"self.async_request": areq}})
+                got = MI.call_method(fsr.node, {"_config": {"sync_request_timeout": 30}}, ["HANDLER", "a1", "a2"], extra_sr)
                 res = ("value", got)
             except MI.Raised as r_:
                 res = ("raise", r_)
@@ -320,10 +345,18 @@ def run(ctx, rep):
            "value does not (wait, then raise-if-exception / return-otherwise) the stored object: %s" % sorted(outcomes, key=str),
            fv.loc)
     fs = ctx.func(K.CONN + ".sync_request")
-    oksr = any(isinstance(n, ast.Return) and isinstance(n.value, ast.Attribute) and n.value.attr == "value" and
-               A.find_calls(n.value, "self.async_request") for n in A.walk(fs.node))
+    ram = K.request_api_model(ctx)
+    if "error" in ram:
+        oksr = any(isinstance(n, ast.Return) and isinstance(n.value, ast.Attribute) and n.value.attr == "value" and
+                   A.find_calls(n.value, "self.async_request") for n in A.walk(fs.node))
+        why_sr = "sync_request no longer returns .value"
+    else:
+        sy = ram["sync"]
+        oksr = sy["n_results"] == 1 and sy["issued"] == [("H", (1, 2), 0)] and sy["returned"] == ("VALUE-OF", 0)
+        why_sr = "sync_request('H', 1, 2) issues %s with %d result object(s) and returns %r" % (sy["issued"], sy["n_results"], sy["returned"])
     rep.ob("R01.4", "sync_request returns the value of the matching asynchronous request", oksr,
-           "return self.async_request(handler, *args, timeout=...).value" if oksr else "sync_request no longer returns .value", fs.loc)
+           "one request (handler, args) is issued, its own result object is the callback, and that object's .value is returned"
+           if oksr else why_sr, fs.loc, kind="model" if "error" not in ram else "site")
     far = ctx.func(K.CONN + ".async_request")
     okar = False
     for c in A.find_calls(far.node, "self._async_request"):
@@ -333,6 +366,9 @@ def run(ctx, rep):
         okar = len(c.args) == 3 and A.src(c.args[0]) == arp[1] and A.src(c.args[1]) == far.node.args.vararg.arg and \
             bool(res) and A.src(c.args[2]) == res[0] and any(isinstance(n, ast.Return) and A.src(n.value) == res[0]
                                                              for n in A.walk(far.node))
+    if "error" not in ram:
+        okar = all(ram["async", t_]["n_results"] == 1 and ram["async", t_]["issued"] == [("H", (1, 2), 0)] and
+                   ram["async", t_]["returned_no"] == 0 for t_ in (None, 0, 5))
     rep.ob("R01.4", "async_request: the result object it returns is the callback registered for the request", okar,
            "res = AsyncResult(self); self._async_request(handler, args, res); return res" if okar else
            "async_request does not register the AsyncResult it returns", far.loc)
